@@ -170,6 +170,8 @@ struct HeapStats {
 struct Heap {
     bool junk = true;        // fill fresh blocks with seeded junk
     bool always_move = true; // reallocate always moves
+    bool zero_is_null = false; // a request for zero bytes returns NULL (as malloc may)
+    uint64_t zero_nulls = 0;
     uint64_t junk_seed = 0;
     HeapStats st;
     void reset(uint64_t seed);      // wipe arena, start a new run
